@@ -632,7 +632,10 @@ impl<Backing : AsRef<[u32]> + AsMut<[u32]>> DrawTarget<Backing> {
     /// Pushes a new layer as the drawing target. This is used for implementing
     /// group opacity or blend effects.
     pub fn push_layer_with_blend(&mut self, opacity: f32, blend: BlendMode) {
-        let rect = self.clip_bounds();
+        // a layer never needs pixels outside the surface: a clip rectangle larger than
+        // the surface would otherwise give a layer that the span blitters' scratch row
+        // and the full-surface clip masks do not cover
+        let rect = self.clip_bounds().intersection_unchecked(&intrect(0, 0, self.width, self.height));
         // an empty clip (disjoint or inverted rectangles) can have a negative extent
         let len = if rect.is_empty() { 0 } else { (rect.size().width * rect.size().height) as usize };
         self.layer_stack.push(Layer {
